@@ -95,6 +95,10 @@ class Lib:
         # Generate the dependncy graph implied by .mod files
         dep_graph = builder.get_dependency_graph(self.objs, depgen=attrgetter('dependencies'))
 
+        # Forget the worker tasks of any previous build of these objects
+        for obj in dep_graph.nodes:
+            obj.q_task = None
+
         def _build_objs(queue=None):
             # Traverse the dependency tree in reverse topological order
             topo_nodes = list(reversed(list(nx.topological_sort(dep_graph))))
